@@ -17,7 +17,6 @@ output of every op: `<ok|err:class> <canonical dump of the whole store and all l
 import PvModel.MdStoreSpec
 import PvModel.MdAddr
 -- registry: mdstore PvModel.MdStore.driver
--- registry: mdstorefix PvModel.MdStore.driverFixed
 
 namespace PvModel.MdStore
 open PvModel
@@ -229,12 +228,5 @@ def driver : Driver where
   σ := DState
   init := {}
   step := fun s op impl => stepOp removeScope s (words op) impl
-
-/-- the model with the PROPOSED FIX of `RemoveScope` (to be used by `checks/C14.json` once the
-fix is applied to the repository) -/
-def driverFixed : Driver where
-  σ := DState
-  init := {}
-  step := fun s op impl => stepOp removeScopeFixed s (words op) impl
 
 end PvModel.MdStore
